@@ -11,9 +11,7 @@ impl Compiler {
         if self.scope_depth == 0 {
             self.globals.insert(func.name.clone(), false);
             if !self.global_indices.contains_key(&func.name) {
-                let idx = self.next_global_index;
-                self.global_indices.insert(func.name.clone(), idx);
-                self.next_global_index += 1;
+                self.alloc_global_index(&func.name)?;
             }
         }
 
